@@ -912,6 +912,60 @@ DIST_ORACLE = [
 ]
 
 
+_GRID_SHAPES = [(), (1,), (2,), (3,), (1, 2), (2, 3), (3, 3), (2, 1), (2, 3, 3), (1, 2, 3), (2, 3, 1)]
+
+
+def oracle_ctor_grid(limit=6):
+    """Concatenate / Stack / Chain on every pair of the shapes above (ranks 0-3, equal and DIFFERENT ranks) and every axis in
+    [-3, 3): the constructor must accept exactly when `np.concatenate` / `np.stack` of arrays of the children's shapes does
+    (Chain: exactly when the shapes are equal) and then declare NumPy's result shape."""
+    out = []
+
+    def ref(fn):
+        try:
+            return ("ok", tuple(fn().shape))
+        except Exception:  # noqa: BLE001
+            return ("raise", None)
+
+    for s1 in _GRID_SHAPES:
+        for s2 in _GRID_SHAPES:
+            jobs = [("Chain", None, ("ok", s1) if s1 == s2 else ("raise", None), lambda: B.Chain([B.Identity(s1), B.Identity(s2)]))]
+            for ax in range(-3, 3):
+                jobs.append(("Concatenate", ax, ref(lambda: np.concatenate([np.zeros(s1), np.zeros(s2)], axis=ax)),
+                             lambda ax=ax: B.Concatenate([B.Identity(s1), B.Identity(s2)], axis=ax)))
+                jobs.append(("Stack", ax, ref(lambda: np.stack([np.zeros(s1), np.zeros(s2)], axis=ax)),
+                             lambda ax=ax: B.Stack([B.Identity(s1), B.Identity(s2)], axis=ax)))
+            for ctor, ax, want, thunk in jobs:
+                v, r = real_ctor(thunk)
+                got = ("ok", tuple(r.shape)) if v == "ok" else ("raise", None)
+                if got != want:
+                    law = ("documented incompatibility was accepted" if want[0] == "raise" else
+                           "a compatible construction was rejected" if got[0] == "raise" else "declared shape differs from NumPy's")
+                    out.append(dict(key=f"ctor-grid|{ctor}|{s1}|{s2}|axis={ax}", kind="ctor-grid", ctor=ctor, s1=list(s1), s2=list(s2), axis=ax,
+                                    law=law, want=str(want), got=str(got)))
+                    if len(out) >= limit:
+                        return out
+    return out
+
+
+def _ctor_grid_one(ctor, s1, s2, ax):
+    s1, s2 = tuple(s1), tuple(s2)
+    if ctor == "Chain":
+        want = ("ok", s1) if s1 == s2 else ("raise", None)
+        thunk = lambda: B.Chain([B.Identity(s1), B.Identity(s2)])  # noqa: E731
+    else:
+        f = np.concatenate if ctor == "Concatenate" else np.stack
+        try:
+            want = ("ok", tuple(f([np.zeros(s1), np.zeros(s2)], axis=ax).shape))
+        except Exception:  # noqa: BLE001
+            want = ("raise", None)
+        cls = B.Concatenate if ctor == "Concatenate" else B.Stack
+        thunk = lambda: cls([B.Identity(s1), B.Identity(s2)], axis=ax)  # noqa: E731
+    v, r = real_ctor(thunk)
+    got = ("ok", tuple(r.shape)) if v == "ok" else ("raise", None)
+    return got != want
+
+
 KNOWN_PARTIAL_KEY = "Partial.__check_init__|out-of-range integer index accepted"
 
 
@@ -963,6 +1017,8 @@ def search(hints, tier, rng):
         v, r = real_ctor(thunk)
         if v == "ok":
             wit.append(dict(key=f"must-raise|{key}", kind="must-raise", which=key, law="documented incompatibility was accepted"))
+    if len(wit) < 10:
+        wit += oracle_ctor_grid()
     return wit[:10]
 
 
@@ -975,6 +1031,8 @@ def replay(w):
     if w.get("kind") == "partial":
         return replay(w["witness"])
     kind = w.get("kind")
+    if kind == "ctor-grid":
+        return _ctor_grid_one(w["ctor"], w["s1"], w["s2"], w["axis"])
     if kind == "class":
         return any(x["key"] == w["key"] for x in oracle_classes())
     if kind == "must-raise":
